@@ -244,6 +244,55 @@ def special_position_cases(part, seed):
                     part.state(("special", key, centre, ci, oi, tuple(syms)))
 
 
+def atom_on_special_cases(part, seed):
+    """
+    pairwise: an ATOM exactly on a special position (inversion centre, two-fold axis, three-fold axis) TOGETHER WITH partial occupancy
+    (1, 1/2, 1/3, 1/4) next to an ordinary general-position atom: the parent lists the site once (coincident images merged), so do its
+    P1 and supercell descriptions - same atom count per cell, same arrangement, same density, same total occupancy
+    """
+    sites = [((2, ""), (0.0, 0.0, 0.0)), ((2, ""), (0.5, 0.0, 0.5)), ((14, "b1"), (0.0, 0.5, 0.5)), ((5, "b1"), (0.0, 0.31, 0.0)), ((148, "H"), (0.0, 0.0, 0.27)),
+             ((148, "H"), (0.0, 0.0, 0.0)), ((148, "R"), (0.21, 0.21, 0.21)), ((15, "b1"), (0.25, 0.25, 0.0))]
+    for (key, site) in sites:
+        cell = lattice.compatible_cells(*key)[0]
+        for occ in (1.0, 0.5, 1.0 / 3.0, 0.25):
+            case = {"kind": "atom-on-special", "setting": list(key), "site": list(site), "occ": occ}
+            try:
+                c = xtal.make_crystal(key[0], key[1], cell, ["Zn", "O"], np.array([site, (0.137, 0.289, 0.611)]), occupation=np.array([occ, 1.0]))
+                uc = c.unit_cell_atoms()
+                X = arrangement(c)
+                dens = float(c.density)
+                tot = float(np.sum(uc["occupation"]))
+            except Exception as e:
+                part.fail("atom-on-special:raise", "a crystal with a %.3g-occupied atom on a special position of %s raised %r" % (occ, key, e), case)
+                continue
+            for size in ((1, 1, 1), (2, 1, 1)):
+                for route in ("as_P1_supercell", "to_translational_symmetry"):
+                    part.ev()
+                    part.tr()
+                    try:
+                        cf = xtal.fresh_from_state(xtal.public_state(c))
+                        p = cf.as_P1_supercell(size) if route == "as_P1_supercell" else cf.to_translational_symmetry(supercell=size)
+                        Y = arrangement(p)
+                        n = size[0] * size[1] * size[2]
+                        pu = xtal.fresh_from_state(xtal.public_state(p)).unit_cell_atoms()
+                        ptot = float(np.sum(pu["occupation"]))
+                    except Exception as e:
+                        part.fail("atom-on-special:raise:%s" % route, "%s%s raised %r (%.3g-occupied atom on a special position of %s)" % (route, size, e, occ, key), case)
+                        continue
+                    tag = "%s:atom-on-special" % route
+                    if len(Y[0]) != n * len(X[0]):
+                        part.fail("count:%s" % tag, "%s%s of %s with a %.3g-occupied atom on a special position holds %d atoms, expected %d x %d" % (route, size, key, occ, len(Y[0]), n, len(X[0])), case)
+                        continue
+                    same_arrangement(part, X, Y, "arrangement:%s" % tag, "%s%s with a %.3g-occupied atom on a special position of %s" % (route, size, occ, key), case)
+                    # (total occupancies are not compared: a merged fully occupied site reports the SUM of the merged occupancies in the parent
+                    # and 1 in the P1 copy - the density, which both compute from what they hold, is the observable)
+                    if not (abs(float(p.density) - dens) <= 1e-9 * dens):
+                        part.fail("density:%s" % tag, "%s%s of %s with a %.3g-occupied atom on a special position: density %.6f vs %.6f"
+                                  % (route, size, key, occ, float(p.density), dens), case)
+                    part.outcome((route, tuple(size), key[0], "atom-on-special", occ < 1))
+    part.nstates(len(sites))
+
+
 def p1_worker(part, job, seed, thorough):
     row, mode = job
     centres = [(0.137, 0.289, 0.611), (0.983, 0.289, 0.017)]
@@ -437,6 +486,7 @@ def run(ctx):
     jobs.sort(key=lambda j: -len(j[0]["symops"]) * (9 if j[1] == "all_sizes" else 1))
     ctx.pmap(p1_worker, jobs, seed=ctx.seed, thorough=ctx.thorough)
     special_position_cases(ctx, ctx.seed)
+    atom_on_special_cases(ctx, ctx.seed)
     specs = []
     for n in R_GROUPS:
         for ac in AC:
@@ -457,6 +507,8 @@ def run(ctx):
 
 
 def replay(ctx, case):
+    if case.get("kind") == "atom-on-special":
+        return atom_on_special_cases(ctx, ctx.seed)
     if case.get("kind") == "special":
         special_position_cases(ctx, 0)
         return
